@@ -482,3 +482,21 @@ _MEMO = "import functools\n\n\n@functools.lru_cache(maxsize=8)\n"
 for _p, _r in (("C01", "C01-FEED"), ("C05", "C05-"), ("C07", "C07-READ"), ("C12", "C12-COL")):
     M(_p, _r, [(UT, _HDR, _MEMO + _HELPER + _HDR), (UT, _OLD1, _NEW1), (UT, _OLD2, _NEW2)], name="header units read through a memoised helper (stale after the file is rewritten)")
     T(_p, [(UT, _HDR, _HELPER + _HDR), (UT, _OLD1, _NEW1), (UT, _OLD2, _NEW2)], name="header units read through a plain extracted helper")
+
+# ---------------------------------------------------------------- C13-PICKLE
+_BT = "def batch_tasks(n_tasks, n_batches, arr=None, args=None, start_idx=0):"
+_RB_OLD = "        batch = read_batch_idx(prior_samples_file, columns, slice_or_idx, units=units)\n"
+_RB_NEW = "        try:\n            batch = read_batch_idx(prior_samples_file, columns, slice_or_idx, units=units)\n        except Exception as e:\n            raise PriorCacheReadError(prior_samples_file, e) from e\n"
+_CLS_BAD = "class PriorCacheReadError(RuntimeError):\n    def __init__(self, filename, err):\n        super().__init__(f\"Failed to read '{filename}': {err!r}\")\n        self.filename = filename\n\n\n"
+_CLS_OK = "class PriorCacheReadError(RuntimeError):\n    def __init__(self, filename, err):\n        super().__init__(filename, err)\n        self.filename = filename\n\n\n"
+M("C13", "C13-PICKLE", [(UT, _BT, _CLS_BAD + _BT), (UT, _RB_OLD, _RB_NEW)], name="worker failure re-raised as an exception that cannot be un-pickled (pool hangs)")
+T("C13", [(UT, _BT, _CLS_OK + _BT), (UT, _RB_OLD, _RB_NEW)], name="worker failure re-raised as a picklable exception naming the file")
+
+_TF_OLD = "            except Exception as e:\n                raise e\n            finally:\n                os.unlink(f.name)\n"
+M("C13", "C13-TMP", UT, _TF_OLD, "            except Exception:\n                os.unlink(f.name)\n                raise\n            os.unlink(f.name)\n", "cleanup only for Exception subclasses (Ctrl-C / SystemExit leak the cache file)")
+T("C13", UT, _TF_OLD, "            except BaseException:\n                os.unlink(f.name)\n                raise\n            os.unlink(f.name)\n", "cleanup spelled as catch-all handler + unlink after the try")
+
+# ---------------------------------------------------------------- C05-PICKLE
+_CP = "    def __copy__(self):\n"
+M("C05", "C05-PICKLE", DT, _CP, "    def __reduce__(self):\n        return (self.__class__, (self._t_bmjd, self.rv, self.rv_err, self.t_ref))\n\n" + _CP, "RVData.__reduce__ loses a disabled reference epoch in worker processes")
+T("C05", DT, _CP, "    def __reduce__(self):\n        return (self.__class__, (self._t_bmjd, self.rv, self.rv_err, False if self.t_ref is None else self.t_ref))\n\n" + _CP, "RVData.__reduce__ that keeps the reference epoch")
